@@ -7,6 +7,7 @@
   arbitrary schedule of write sizes, failures and client aborts and every prefix is a crash point.
 -/
 import LtVerif.Proofs.DavSeq
+import LtVerif.Proofs.DavStatus
 import LtVerif.Proofs.DavDest
 import LtVerif.Proofs.DavPut
 import LtVerif.Proofs.DavExamples
@@ -31,8 +32,28 @@ theorem c18_success_effect (t : Tree) (r : Req) (hwf : WF t) (hc : Conforming t 
     ∀ q, get (step t r).2 q = rfcEffect (get t) r q :=
   step_effect hwf hc hs h207
 
+example : WF Ex.t0 := wfb_sound (by decide)
+example : Conforming Ex.t0 Ex.copyDtoF := by decide
 example : Success (step Ex.t0 Ex.copyDtoF).1 ∧ (step Ex.t0 Ex.copyDtoF).1 ≠ 207 ∧
     get (step Ex.t0 Ex.copyDtoF).2 (Ex.p ["f", "x"]) = some (.file (ofString "dx")) := by decide
+
+/-- WHICH status must occur: a covered request is answered with success (2xx other than 207) exactly
+    when the RFC 4918 preconditions hold — `rfcPre`, an independent specification stated on the
+    lookup function alone (parent collection exists, target/destination kind, Overwrite, source ≠
+    destination, Depth and slash rules, conditional headers).  An implementation model that refused
+    everything, or accepted too much, would not satisfy this. -/
+theorem c18_status_rfc (t : Tree) (r : Req) (hwf : WF t) (hc : Conforming t r) (hg : r.m ≠ .get) :
+    isSuccess (step t r).1 = rfcPre (get t) r :=
+  step_status hwf hc hg
+
+example : rfcPre (get Ex.t0) Ex.putA = true ∧ rfcPre (get Ex.t0) Ex.putBad = false ∧
+    rfcPre (get Ex.t0) Ex.moveAtoDz = true := by decide
+
+/-- For a covered request 207 Multi-Status only reports a refusal at the top level: the tree is the
+    very same tree (partial effects exist only in lighttpd's merge, which is not covered). -/
+theorem c18_multistatus_unchanged (t : Tree) (r : Req) (hc : Conforming t r) (h : (step t r).1 = 207) :
+    (step t r).2 = t :=
+  step_207_unchanged hc h
 
 /-- Only the subtrees of the request target and of the destination change. -/
 theorem c18_frame (t : Tree) (r : Req) (q : Path) (hs : under r.src.segs q = false)
@@ -47,6 +68,25 @@ theorem c18_confined (root : Path) (t : Tree) (reqs : List Req) (hb : ∀ r ∈ 
 
 example : get (run Ex.t0 Ex.seq1) [Ex.sg "canary"] = some (.file (ofString "C")) ∧
     under Ex.R [Ex.sg "canary"] = false := by decide
+
+/-- PARTIAL.  The same statement for a URL space narrower than the document root (the part of the
+    tree where `webdav.activate` / `!webdav.is-readonly` holds): nothing outside `scope` changes —
+    provided every Destination lies in `scope` as well.  What is missing for the full clause
+    "nothing outside the configured WebDAV tree is touched": mod_webdav_copymove_b never re-evaluates
+    the configuration for the Destination (documented upstream), so that proviso is not enforced by
+    the code; see the witness below. -/
+theorem c18_confined_scope_partial (scope : Path) (t : Tree) (r : Req) (hs : under scope r.src.segs = true)
+    (hd : ∀ d, r.dst = .ok d → under scope d.segs = true) (q : Path) (hq : under scope q = false) :
+    get (step t r).2 q = get t q :=
+  step_confined ⟨hs, hd⟩ hq
+
+/-- Witness of the negation without the proviso: a COPY addressed inside the scope `/d/` whose
+    Destination `/a` lies outside of it (inside the document root) is accepted and overwrites `/a`. -/
+theorem c18_destination_scope_unchecked :
+    under Ex.scope Ex.copyDxToA.src.segs = true ∧ under Ex.scope (Ex.p ["a"]) = false ∧
+    isSuccess (step Ex.t0 Ex.copyDxToA).1 = true ∧
+    get (step Ex.t0 Ex.copyDxToA).2 (Ex.p ["a"]) ≠ get Ex.t0 (Ex.p ["a"]) := by
+  decide
 
 /-- Every Destination value that mod_webdav_copymove_b accepts is a canonical absolute path: its
     segments are non-empty, not "." or "..", and free of '/', and the physical destination is the
@@ -72,14 +112,18 @@ example : mkDest Ex.R (ofString "http") (ofString "dav.test") (some (ofString "h
 theorem c18_wf_preserved (t : Tree) (r : Req) (hwf : WF t) (hc : Conforming t r) : WF (step t r).2 :=
   step_wf hwf hc
 
-/-- After any sequence of covered requests the tree is the RFC 4918 reference tree of that
-    sequence: the RFC effects of exactly the requests that were answered with success, in order
-    (so success is reported exactly when the effect took place, and failures change nothing). -/
-theorem c18_matches_reference (t : Tree) (reqs : List Req) (hwf : WF t) (hc : ConformingRun t reqs) :
-    get (run t reqs) = refRun (get t) reqs ((statuses t reqs).map isSuccess) ∧ WF (run t reqs) :=
-  ⟨run_matches reqs t hwf hc, run_wf reqs t hwf hc⟩
+/-- After any sequence of covered requests the tree is the RFC 4918 reference tree of that sequence,
+    where the reference decides by itself (`rfcPre`) which requests take effect — it does not consume
+    the statuses of the implementation — and the success/failure answers are exactly the reference's
+    decisions (sequences without GET, whose status is about the read, not the tree). -/
+theorem c18_matches_reference (t : Tree) (reqs : List Req) (hwf : WF t) (hc : CoveredRun t reqs) :
+    get (run t reqs) = refRunPre (get t) reqs ∧ WF (run t reqs) ∧
+    ((∀ r ∈ reqs, r.m ≠ .get) → (statuses t reqs).map isSuccess = refDecisions (get t) reqs) :=
+  ⟨(run_matches_pre reqs t hwf hc).1, (run_matches_pre reqs t hwf hc).2, run_decisions reqs t hwf hc⟩
 
+example : CoveredRun Ex.t0 Ex.seq1 := by decide
 example : statuses Ex.t0 Ex.seq1 = [204, 409, 201, 200, 201, 204] := by decide
+example : refDecisions (get Ex.t0) Ex.seq1 = [true, false, true, true, true, true] := by decide
 
 /-- The documented exception is real: a collection copied onto an existing non-empty collection
     is merged (here `/e/y` survives), which is not the RFC 4918 effect. -/
@@ -145,13 +189,39 @@ theorem c18_put_staged_complete (c : Cfg) (evs : List Ev) (s : PSt) (h : runEvs 
   have := (inv_run (inv_init c) (invS_init c) h).1.2
   rcases hp with hp | hp | hp <;> rw [hp] at this <;> exact this
 
-/-- Content-Range PUT (copy, modify, rename): the run of the repaired code is accepted and atomic;
-    renaming after a failed write — what the pinned tree does — is not a word of the protocol. -/
-theorem c18_partial_put_protocol :
+/-- Progress / totality of the code-shaped reading of the automaton: under EVERY schedule of
+    kernel answers (any call may fail, writes transfer any positive number of bytes, the client may
+    abort while the body is received) every call the code issues (`next`) is accepted, and the
+    request terminates in state `done` within `21·span` calls — where no staged name and no staging
+    file is left, the target is complete-old or complete-new, and the status says which. -/
+theorem c18_put_progress (c : Cfg) (res : Nat → Res) :
+    ∃ s, runGen c res (21 * span c) 0 (init c) = some s ∧ s.pc = .done ∧ s.tmp = none ∧ s.anon = none ∧
+      (s.read = c.old ∨ s.read = some c.new) ∧ (s.status = 2 → s.read = some c.new) ∧
+      (s.status ≠ 2 → s.read = c.old) := by
+  obtain ⟨s, h1, h2, h3, h4⟩ := runGen_done res (21 * span c) 0 (init c) (inv_init c) (invS_init c) (rank_init c)
+  have hp := h3.2
+  rw [h2] at hp
+  exact ⟨s, h1, h2, hp.1, hp.2, h3.1, fun h => (h4.1 h).1, h4.2⟩
+
+example : (runGen Ex.cRepl (fun _ => {}) (21 * span Ex.cRepl) 0 (init Ex.cRepl)).map (fun s => (s.pc, s.status, s.read)) =
+    some (.done, 2, some (ofString "hello")) := by decide
+example : (runGen Ex.cRepl Ex.sched (21 * span Ex.cRepl) 0 (init Ex.cRepl)).map (fun s => (s.pc, s.status, s.read)) =
+    some (.done, 4, some (ofString "old")) := by decide
+
+/-- Witnesses about the shape of the protocol: Content-Range PUT (copy, modify, close, rename) and
+    zero-length replacement are accepted and atomic, also with a failed write or a failed close();
+    what the code as found did — rename after a failed write, rename before close(), truncating the
+    target in place — is not a word of the protocol. -/
+theorem c18_put_protocol_witnesses :
     (runEvs Ex.cPart (init Ex.cPart) Ex.runPart).map (·.read) = some (some (ofString "0AB3")) ∧
     (runEvs Ex.cPart (init Ex.cPart) Ex.runPartFail).map (fun s => (s.pc, s.tmp, s.read)) =
       some (.done, none, some (ofString "0123")) ∧
-    runEvs Ex.cPart (init Ex.cPart) Ex.runPartBug = none := by
-  decide
+    (runEvs Ex.cPart (init Ex.cPart) Ex.runPartCloseFail).map (fun s => (s.pc, s.tmp, s.status, s.read)) =
+      some (.done, none, 4, some (ofString "0123")) ∧
+    runEvs Ex.cPart (init Ex.cPart) Ex.runPartBug = none ∧
+    runEvs Ex.cPart (init Ex.cPart) Ex.runPartBug2 = none ∧
+    (runEvs Ex.cZero (init Ex.cZero) Ex.runZero).map (fun s => (s.pc, s.tmp, s.read)) = some (.done, none, some []) ∧
+    runEvs Ex.cZero (init Ex.cZero) Ex.runZeroBug = none := by
+  refine ⟨by decide, by decide, by decide, by decide, by decide, by decide, by decide⟩
 
 end LtVerif.C18
